@@ -79,7 +79,7 @@ CHECKS = {
     },
     "C19": {
         "level": "exploration",
-        "rule": "rapid-generated peer scripts (fork-biased: header batches, view changes / reorganisations of any depth, partial filter-header progress, disconnects, clock advances) with a subscriber registered before any peer session exists, on a database wrapper that stamps every filter-header index commit with a global sequence number and the tip it installs; plus generated backlog requests at quiescent moments and in the middle of a batch being announced. Oracles at every quiescence: (1) replaying all received events reproduces the committed chain up to the filter tip, (2) per-event content / ordering, (3) every connected event is received after a commit covering its block, (4) backlog == committed blocks above the requested height; mid-flight backlog + later events replay without gap. Non-trivial = a reorganisation that crosses the filter tip, or a backlog request strictly inside (0, filter tip), or an evaluated mid-flight backlog request; distinct = distinct case JSON Unit netsim-checkpointed: the same oracles on chains of 1001-2300 blocks whose block headers are (almost all) stored while the filter headers end anywhere below (genesis only, anywhere, more than an interval behind, inside the last interval): the filter headers are committed by the checkpointed path in whole intervals and with a partial first interval; the subscriber starts from the pre-filled filter-header chain; backlog probes reach back up to 1500 blocks and into the middle of an interval being announced. Unit bm-sched: the same harness-scheduled interleavings of writeCFHeadersMsg and rollBackToHeight as C03's bm-sched unit, with every event received on Notifications() replayed (connected(h) only on top of h-1, disconnected highest first carrying the removed header and the header below it, never-committed blocks tolerated) and compared with the committed chain after every step, plus backlog probes. Non-trivial there = a step with a real overlap.",
+        "rule": "rapid-generated peer scripts (fork-biased: header batches, view changes / reorganisations of any depth, partial filter-header progress, disconnects, clock advances) with a subscriber registered before any peer session exists, on a database wrapper that stamps every filter-header index commit with a global sequence number and the tip it installs; plus generated backlog requests at quiescent moments and in the middle of a batch being announced. Oracles at every quiescence: (1) replaying all received events reproduces the committed chain up to the filter tip, (2) per-event content / ordering, (3) every connected event is received after a commit covering its block, (4) backlog == committed blocks above the requested height; mid-flight backlog + later events replay without gap. Non-trivial = a reorganisation that crosses the filter tip, or a backlog request strictly inside (0, filter tip), or an evaluated mid-flight backlog request; distinct = distinct case JSON Unit netsim-checkpointed: the same oracles on chains of 1001-2300 blocks whose block headers are (almost all) stored while the filter headers end anywhere below (genesis only, anywhere, more than an interval behind, inside the last interval): the filter headers are committed by the checkpointed path in whole intervals and with a partial first interval; the subscriber starts from the pre-filled filter-header chain; backlog probes reach back up to 1500 blocks and into the middle of an interval being announced. Unit sub-stress: the real block manager's chain update operations on real stores under the real subscription manager, at full speed: one goroutine reorganises the top of the chain without pause (roll back 1-5 blocks, write a longer branch, commit its filter headers) while 2-4 goroutines subscribe again and again for the backlog above a height below every fork point (hundreds of subscriptions per case, most of them during a rollback); each subscriber's backlog and events must replay as a valid walk on top of the chain up to its height, and the subscribers that stay to the end must hold exactly the committed chain; a subscription refused with an error while blocks are being removed is tolerated and counted. Unit bm-sched: the same harness-scheduled interleavings of writeCFHeadersMsg and rollBackToHeight as C03's bm-sched unit, with every event received on Notifications() replayed (connected(h) only on top of h-1, disconnected highest first carrying the removed header and the header below it, never-committed blocks tolerated) and compared with the committed chain after every step, plus backlog probes. Non-trivial there = a step with a real overlap.",
         "assumptions": NETSIM_ASSUME + [
             "rule (3) is an external-observer check: an emit-before-commit defect is detected only if the subscriber wins the race against the commit for at least one event of a batch",
             "mid-flight backlog probes are evaluated only when no disconnect was in flight (otherwise the subscriber's starting point is ambiguous)",
@@ -92,6 +92,9 @@ CHECKS = {
             {"name": "netsim-checkpointed", "module": "harness", "pkg": "./checks/c19", "test": "TestC19Big", "tags": "verif",
              "quick": {"checks": 6, "shards": 8, "timeout": 900},
              "thorough": {"checks": 80, "shards": 16, "timeout": 5400, "shrink": "60s"}},
+            {"name": "sub-stress", "module": "harness", "pkg": "./checks/bmsched", "test": "TestC19SubStress", "tags": "verif",
+             "quick": {"checks": 12, "shards": 8, "timeout": 600},
+             "thorough": {"checks": 600, "shards": 16, "timeout": 3600, "shrink": "30s"}},
             {"name": "bm-sched", "module": "harness", "pkg": "./checks/bmsched", "test": "TestC19BM", "tags": "verif",
              "quick": {"checks": 60, "shards": 8, "timeout": 600},
              "thorough": {"checks": 2500, "shards": 16, "timeout": 3600, "shrink": "60s"}},
